@@ -134,7 +134,7 @@ def encodable(text):
 ALPHA = ['a', 'B', '*', '|', '.', '#x', '#', ':', '::', ',', '>', '+', '~', ' ', '[', ']', '(', ')', '=', '~=', '|=', '^=',
          '$=', '*=', '"s"', "'t'", '1', '2n', '-', 'not(', 'f(', ':not(', ':f(', '/**/', '@m', '50%', '!', '\\2a ', '\\7c ',
          '\\3a ', 'url(x)', 'U+1', '<!--', '-->', '{', '}', ';', '\n', '\\', '"', ':first-line', '::x', '.c', '*|', '|b', 'NOT(', '""',
-         '\\5b ', '\\29 ', '\\2c ']
+         '\\5b ', '\\29 ', '\\2c ', 'a\\ ', '\\ ', '.b\\ ', '#c\\ ', '-\\ ']
 
 
 def gen_soup(rng, maxlen=7):
